@@ -80,3 +80,4 @@ CFG['rule'] = CFG['rule'] + ' ' + 'One scenario in three starts with equal copie
 CFG['rule'] = CFG['rule'] + ' ' + 'Node data directories contain pattern characters ([ ] * ? and a blank); node root and shard-manager root are distinct; every node lists the servers starting with itself; the harness picks its loopback ports from a window chosen by process id.'
 CFG['rule'] = CFG['rule'] + ' ' + 'Obligation StartupOrder (gen_startup_order.py): main.go calls NewNode, RegisterMetrics, Serve, Sync in this order (theorem c14_node_listens_before_it_sends); the harness starts its nodes in the same order.'
 CFG['rule'] = CFG['rule'] + ' ' + "One user pair in five has ids with a leading '.', '_', '-' or '#'."
+CFG['rule'] = CFG['rule'] + ' ' + 'One plan per run has no fault but a slow receiver: 2 s for each chunk of a three-chunk file (every call below the RPC timeout of 5 s, the transfer to one destination above it).'
